@@ -35,6 +35,7 @@ type serverConn struct {
 	closed chan struct{}
 	once   sync.Once
 	wasClosed bool
+	closeServer func() // Server.Close of the server under test
 }
 
 func peerOf(kind byte, port int) net.Addr {
@@ -67,6 +68,10 @@ func (c *serverConn) ReadFrom(p []byte) (int, net.Addr, error) {
 	c.pos++
 	if len(r) < 4 || r[0] != 0 {
 		return 0, nil, fmt.Errorf("scripted read error")
+	}
+	if c.pos < len(c.reads) && len(c.reads[c.pos]) == 2 && c.reads[c.pos][0] == 1 && c.reads[c.pos][1] == 2 && c.closeServer != nil {
+		// the server is closed by another goroutine while this datagram is being returned (Close between two reads)
+		c.closeServer()
 	}
 	return copy(p, r[4:]), peerOf(r[1], int(r[2])<<8|int(r[3])), nil
 }
@@ -122,6 +127,7 @@ func serveScenario(v6 bool, reads [][]byte) (outs [][]byte) {
 			if err != nil {
 				t.Fatal(err)
 			}
+			conn.closeServer = func() { s.Close() }
 			go func() {
 				defer func() {
 					if x := recover(); x != nil {
@@ -146,6 +152,7 @@ func serveScenario(v6 bool, reads [][]byte) (outs [][]byte) {
 			if err != nil {
 				t.Fatal(err)
 			}
+			conn.closeServer = func() { s.Close() }
 			go func() {
 				defer func() {
 					if x := recover(); x != nil {
@@ -245,7 +252,11 @@ func genC14(r *Run) {
 		var expPeers []string // sender of each datagram that must reach the handler, in order
 		for k := 0; k < cnt; k++ {
 			if k == closeAt {
-				reads = append(reads, []byte{1})
+				if k > 0 && r.Rng.Intn(2) == 0 {
+					reads = append(reads, []byte{1, 2}) // Close lands while the previous read is returning
+				} else {
+					reads = append(reads, []byte{1})
+				}
 				break
 			}
 			pk := byte(r.Pick(0, 1, 2, 2, 2, 3, 5, 4))
